@@ -87,6 +87,9 @@ def _term(e: ast.expr, self_name: str, other: Optional[str]):
             if len(e.args) == 1 and isinstance(e.args[0], (ast.List, ast.Tuple)):
                 return (CLS2OP[fname], [_term(x, self_name, other) for x in e.args[0].elts])
             return None
+        if isinstance(f, ast.Attribute) and norm(f.value) in CLS2OP and CLS2OP[norm(f.value)] != "Not" and _FLATTEN.get(f.attr):
+            # Cls.join(a, b): n-ary constructor that inlines operands of the same operator (associativity)
+            return (CLS2OP[norm(f.value)], [_term(x, self_name, other) for x in e.args])
         if isinstance(f, ast.Attribute) and norm(f.value) == self_name:
             if f.attr == "build_loc_stack_checker" and not e.args:
                 return "self"
@@ -95,6 +98,41 @@ def _term(e: ast.expr, self_name: str, other: Optional[str]):
             if f.attr == "_from_lsc" and len(e.args) == 1:
                 return _term(e.args[0], self_name, other)
     return None
+
+
+_FLATTEN: Dict[str, bool] = {}     # classmethod name of BinOperatorLSC -> verified flattening constructor
+
+
+def _find_flatteners(m: ModuleInfo) -> None:
+    """classmethods of BinOperatorLSC of the form: operands = []; for x in args: (extend with x's operands when type(x) is
+    cls, else append x); return cls(operands) -- a constructor that is the n-ary operator, sound for |, & and ^ because they
+    are associative"""
+    _FLATTEN.clear()
+    ci = m.classes.get("BinOperatorLSC")
+    if ci is None:
+        return
+    for name, fn in ci.methods.items():
+        if not any(norm(d) == "classmethod" for d in fn.decorator_list) or fn.args.vararg is None:
+            continue
+        cls_, va = fn.args.args[0].arg, fn.args.vararg.arg
+        rets = _returns(fn)
+        loops = [l for l in fn.body if isinstance(l, ast.For) and norm(l.iter) == va]
+        if len(rets) != 1 or len(loops) != 1 or not isinstance(rets[0].value, ast.Call) or norm(rets[0].value.func) != cls_:
+            continue
+        acc = norm(rets[0].value.args[0]) if rets[0].value.args else None
+        x = norm(loops[0].target)
+        body = loops[0].body
+        ok = False
+        if len(body) == 1 and isinstance(body[0], ast.If):
+            t = norm(body[0].test)
+            same = t in (f"type({x}) is {cls_}", f"isinstance({x}, {cls_})")
+            ext = any(isinstance(c, ast.Call) and norm(c.func) == f"{acc}.extend" and norm(c.args[0]) == f"{x}._loc_stack_checkers"
+                      for st in body[0].body for c in ast.walk(st))
+            app = any(isinstance(c, ast.Call) and norm(c.func) == f"{acc}.append" and norm(c.args[0]) == x
+                      for st in body[0].orelse for c in ast.walk(st))
+            ok = same and ext and app
+        if ok:
+            _FLATTEN[name] = True
 
 
 EXPECT_OPS = {
@@ -106,6 +144,7 @@ EXPECT_OPS = {
 
 def operator_table(m: ModuleInfo, res: CheckResult) -> None:
     n = 0
+    _find_flatteners(m)
     for cname, names in (("LocStackChecker", ["__or__", "__and__", "__xor__", "__invert__"]),
                          ("LocStackPattern", ["__or__", "__ror__", "__and__", "__rand__", "__xor__", "__rxor__", "__invert__"])):
         ci = _cls(m, cname)
@@ -163,11 +202,16 @@ def reducers(m: ModuleInfo, res: CheckResult) -> None:
                     got = norm(v.func)
                 elif isinstance(v, ast.Compare) and "sum(" in norm(v) and "% 2" in norm(v):
                     got = "xor" if norm(v).replace(" ", "").endswith("%2==1") else f"parity:{norm(v)}"
+                elif isinstance(v, ast.Compare) and norm(v).replace(" ", "") in (f"sum({ps[1]})==1", f"1==sum({ps[1]})"):
+                    # exactly-one-true: equals xor for two operands only
+                    got = "xor" if _max_arity(m.repo, cname) <= 2 else "one-hot"
         if got is None:
             raise AnalysisError(f"{cname}._reduce: unrecognised form")
         if got != sem:
+            extra = " (exactly-one-true differs from the parity xor as soon as a checker has three or more operands, which the " \
+                    "flattening constructor produces for a ^ b ^ c)" if got == "one-hot" else ""
             res.add(Finding("C10", "OP.reducer", m.rel, f"{cname}._reduce", got,
-                            f"the reducer of {cname} is `{got}`, the combinator requires `{sem}`", ci.node.lineno))
+                            f"the reducer of {cname} is `{got}`, the combinator requires `{sem}`{extra}", ci.node.lineno))
     # every operand is applied to the same (mediator, loc_stack)
     base = _cls(m, "BinOperatorLSC")
     fn = _meth(base, "check_loc_stack")
@@ -199,6 +243,25 @@ def reducers(m: ModuleInfo, res: CheckResult) -> None:
     if not ok:
         res.add(Finding("C10", "OP.invert", m.rel, "InvertLSC.check_loc_stack", norm(rets[0].value) if rets else "?",
                         "~ must be the pointwise negation of the wrapped checker on the same request", inv.lineno))
+
+
+def _max_arity(repo: Repo, cname: str) -> int:
+    """largest number of operands a construction site of `cname` can pass (99 = unbounded)"""
+    best = 0
+    for mod in repo.modules.values():
+        for c in ast.walk(mod.tree):
+            if not isinstance(c, ast.Call):
+                continue
+            f = norm(c.func)
+            if f.split(".")[-1] == cname and c.args:
+                a = c.args[0]
+                best = max(best, len(a.elts) if isinstance(a, (ast.List, ast.Tuple)) and not any(isinstance(e, ast.Starred) for e in a.elts) else 99)
+            elif f.startswith(cname + ".") and _FLATTEN.get(f.split(".")[-1]):
+                best = 99
+            elif f in ("cls",) and mod.enclosing_class(c) is not None and mod.enclosing_class(c).name == "BinOperatorLSC":
+                best = 99 if any(_FLATTEN.values()) and any(
+                    isinstance(x, ast.Call) and norm(x.func).startswith(cname + ".") for x in ast.walk(mod.tree)) else best
+    return best
 
 
 def reiterable_sites(repo: Repo, res: CheckResult) -> None:
